@@ -2,6 +2,11 @@
 #include "isog.h"
 #include <assert.h>
 
+#ifdef SQISIGN_SQISIGN2D_WEST_AC24_VERIF
+// verification hook (H3): traversal trace callback, NULL by default (see ec.h)
+void (*sqisign_verif_trace)(int tag, int a, int b, int c) = 0;
+#endif
+
 // since we use degree 4 isogeny steps, we need to handle the odd case with care
 static void
 ec_eval_even_strategy(ec_curve_t *image,
@@ -29,6 +34,10 @@ ec_eval_even_strategy(ec_curve_t *image,
     int BLOCK = 0,        // Keeps track of point order
         current = 0;      // Number of points being carried
     int XDBLs[log2_of_e]; // Number of doubles performed
+#ifdef SQISIGN_SQISIGN2D_WEST_AC24_VERIF
+    SQISIGN_VERIF_TRACE(1, (int)log2_of_e, (int)e_half, isog_len % 2);
+    SQISIGN_VERIF_TRACE(2, (int)(TORSION_PLUS_EVEN_POWER - isog_len), isog_len, 0);
+#endif
 
     // If walk length is odd, we start with a 2-isogeny
     int is_odd = isog_len % 2;
@@ -46,6 +55,9 @@ ec_eval_even_strategy(ec_curve_t *image,
         while (BLOCK != (e_half - 1 - j)) {
             // A new split will be added
             current += 1;
+#ifdef SQISIGN_SQISIGN2D_WEST_AC24_VERIF
+            SQISIGN_VERIF_TRACE(3, strategy, current, STRATEGY4[TORSION_PLUS_EVEN_POWER - isog_len][strategy]);
+#endif
             // We set the seed of the new split to be computed and saved
             copy_point(&SPLITTING_POINTS[current], &SPLITTING_POINTS[current - 1]);
             // if we copied from the very first element, then we perform one additional doubling
@@ -66,12 +78,18 @@ ec_eval_even_strategy(ec_curve_t *image,
                 } else {
                     xDBL_A24(&SPLITTING_POINTS[current], &SPLITTING_POINTS[current], A24);
                 }
+#ifdef SQISIGN_SQISIGN2D_WEST_AC24_VERIF
+            SQISIGN_VERIF_TRACE(4, current, i, (is_odd && current == 1) ? 1 : 0);
+#endif
             XDBLs[current] = STRATEGY4[TORSION_PLUS_EVEN_POWER - isog_len]
                                       [strategy]; // The number of doublings performed is saved
             BLOCK += STRATEGY4[TORSION_PLUS_EVEN_POWER - isog_len]
                               [strategy]; // BLOCK is increased by the number of doublings performed
             strategy += 1;                // Next, we move to the next element of the strategy
         }
+#ifdef SQISIGN_SQISIGN2D_WEST_AC24_VERIF
+        SQISIGN_VERIF_TRACE(5, j, current, BLOCK);
+#endif
         if (j == 0) {
             assert(current > 0);
             ec_point_t T;
@@ -117,6 +135,9 @@ ec_eval_even_strategy(ec_curve_t *image,
         BLOCK -= XDBLs[current];
         XDBLs[current] = 0;
         current -= 1;
+#ifdef SQISIGN_SQISIGN2D_WEST_AC24_VERIF
+        SQISIGN_VERIF_TRACE(6, current, BLOCK, 0);
+#endif
     }
     // Final 4-isogeny
     if (is_odd) {
@@ -124,6 +145,9 @@ ec_eval_even_strategy(ec_curve_t *image,
         copy_point(&SPLITTING_POINTS[1], &SPLITTING_POINTS[0]);
         xDBL_A24(&SPLITTING_POINTS[current], &SPLITTING_POINTS[current], A24);
     }
+#ifdef SQISIGN_SQISIGN2D_WEST_AC24_VERIF
+    SQISIGN_VERIF_TRACE(7, current, is_odd, 0);
+#endif
     xisog_4(&kps, A24, SPLITTING_POINTS[current]);
     if (points_len)
         xeval_4(points, points, points_len, &kps);
@@ -143,6 +167,9 @@ ec_eval_even_strategy(ec_curve_t *image,
 #endif
 
         ec_kps2_t kps;
+#ifdef SQISIGN_SQISIGN2D_WEST_AC24_VERIF
+        SQISIGN_VERIF_TRACE(8, 0, 0, 0);
+#endif
         xisog_2(&kps, A24, SPLITTING_POINTS[0]);
         if (points_len)
             xeval_2(points, points, points_len, &kps);
